@@ -254,17 +254,20 @@ func (r *RibTable) CleanUpFace(faceId uint64) {
 	r.mutex.Lock()
 	defer r.mutex.Unlock()
 
-	r.RibEntry.cleanUpFace(faceId)
+	// First take the face's routes out of every entry, then recompute the FIB from the top of
+	// the tree downwards, then drop the nodes left empty. Recomputing entry by entry from the
+	// leaves up would remove a prefix's FIB entry before the entries of its ancestors have
+	// lost the face: a lookup in between falls through to an ancestor's old nexthops, which
+	// were never the nexthops of that name.
+	r.RibEntry.removeFaceRoutes(faceId)
+	r.RibEntry.updateNexthopsEnc()
+	r.RibEntry.pruneEmptySubtrees()
 }
 
-func (r *RibEntry) cleanUpFace(faceId uint64) {
-	// Recursively clean children
+// removeFaceRoutes removes all routes of the face from this node and its descendants.
+func (r *RibEntry) removeFaceRoutes(faceId uint64) {
 	for child := range r.children {
-		child.cleanUpFace(faceId)
-	}
-
-	if r.Name == nil {
-		return
+		child.removeFaceRoutes(faceId)
 	}
 
 	// A face may hold several routes on one prefix (one per origin): remove them all
@@ -277,8 +280,16 @@ func (r *RibEntry) cleanUpFace(faceId uint64) {
 		}
 	}
 	r.routes = kept
-	r.updateNexthopsEnc()
-	r.pruneIfEmpty()
+}
+
+// pruneEmptySubtrees removes the descendants that hold neither routes nor children.
+func (r *RibEntry) pruneEmptySubtrees() {
+	for child := range r.children {
+		child.pruneEmptySubtrees()
+		if len(child.children) == 0 && len(child.routes) == 0 {
+			delete(r.children, child)
+		}
+	}
 }
 
 func (r *RibEntry) HasCaptureRoute() bool {
